@@ -11,6 +11,7 @@ Props/Source/Interleave.lean fails instead of anything being guessed."""
 import re, sys, os
 sys.path.insert(0, os.path.dirname(os.path.abspath(__file__)))
 import gen_constants as gc
+import gen_guard as gg
 
 REL = "src/srp_internal.rs"
 FN = "calculate_interleaved"
@@ -118,8 +119,14 @@ def translate(repo):
             if names[0] == names[1] or set(names) & set(outer): raise Unsupported("loop variable names %s shadow each other or a local" % (names,))
         c = constants(repo)
         def length(txt):
-            try: return c.eval(txt)
-            except gc.Missing as ex: raise Unsupported("array length %s: %s" % (txt, ex))
+            # casts only to usize, every named constant imported once from the crate or defined once here (tools/gen_guard.py)
+            try: return gg.const_expr(repo, text, REL, txt, c)
+            except (gc.Missing, gg.Unsupported) as ex: raise Unsupported("array length %s: %s" % (txt, ex))
+        try:
+            gg.hash_types(text, REL, False)        # Sha1 / Digest are the sha1 crate's; no local item or trait of that name
+            gg.fn_header(text, REL, FN)            # nothing but doc / allow attributes, `pub` and `const` in front of the function
+            gg.never_bound(text, REL, ["as_equal_slice", "from_le_bytes"])
+        except gg.Unsupported as ex: raise Unsupported(str(ex))
         def loop(a, e):
             st = "Src.elem" if g[a + "store"] == "*" + g[e] else "Src.lit %d" % num(g[a + "store"])
             return "⟨%d, %d, %d, %d, %s⟩" % (length(g[a + "len"]), num(g[a + "fill"]), num(g[a + "skip"]) if g[a + "skip"] is not None else 0, num(g[a + "step"]), st)
